@@ -195,7 +195,7 @@ def census(ctx, outs, typelevel=None):
                         known = t[3]
                     else:
                         # look at the constraint log prefix
-                        for entry in o.cons.log[:ev["ncons"]]:
+                        for entry in o.cons.log[:ev.get("ncons_before", ev["ncons"])]:
                             if entry[0] == "variant" and entry[1] == t:
                                 known = entry[2]
                     if known == good:
